@@ -70,3 +70,11 @@ Definition parsefile_src : list dstmt :=
   [DIf "nil(parser.ParseFile(d.Fset,filename,src,mode|parser.ParseComments).1)" true [DGuard "nil(parser.ParseFile(d.Fset,filename,src,mode|parser.ParseComments).0)" false (DVal "nil , parser.ParseFile(d.Fset,filename,src,mode|parser.ParseComments).1"); DGuard "true(parser.ParseFile(d.Fset,filename,src,mode|parser.ParseComments).0.Pos().IsValid())" true (DVal "nil , parser.ParseFile(d.Fset,filename,src,mode|parser.ParseComments).1")];
    DGuard "fails(d.DecorateFile(parser.ParseFile(d.Fset,filename,src,mode|parser.ParseComments).0))" false DErr;
    DRet (DVal "d.DecorateFile(parser.ParseFile(d.Fset,filename,src,mode|parser.ParseComments).0) , parser.ParseFile(d.Fset,filename,src,mode|parser.ParseComments).1")].
+
+Definition gobuild_resolvepackage_src : list dstmt :=
+  [DGuard "has(r.Hints,importPath)" false (DVal "r.Hints[importPath]");
+   DIf "nil(r.FindPackage)" false [DIf "nil(r.Context)" false [DGuard "fails((*build.Context).Import(&build.Default,importPath,r.Dir,0))" false DErr; DGuard "nil((*build.Context).Import(&build.Default,importPath,r.Dir,0))" false (DErr); DRet (DVal "(*build.Context).Import(&build.Default,importPath,r.Dir,0).Name")]; DGuard "fails((*build.Context).Import(r.Context,importPath,r.Dir,0))" false DErr; DGuard "nil((*build.Context).Import(r.Context,importPath,r.Dir,0))" false (DErr); DRet (DVal "(*build.Context).Import(r.Context,importPath,r.Dir,0).Name")];
+   DIf "nil(r.Context)" false [DGuard "fails(r.FindPackage(&build.Default,importPath,r.Dir,0))" false DErr; DGuard "nil(r.FindPackage(&build.Default,importPath,r.Dir,0))" false (DErr); DRet (DVal "r.FindPackage(&build.Default,importPath,r.Dir,0).Name")];
+   DGuard "fails(r.FindPackage(r.Context,importPath,r.Dir,0))" false DErr;
+   DGuard "nil(r.FindPackage(r.Context,importPath,r.Dir,0))" false (DErr);
+   DRet (DVal "r.FindPackage(r.Context,importPath,r.Dir,0).Name")].
